@@ -5,7 +5,7 @@ import json, subprocess
 HOOK_COMMITS = ["cdcb137"]
 
 LEG = " Each check runs twice: in the default release build of the harness and, as a child process, in a build with overflow checks and debug assertions (profile `checked`); violations of either leg are reported."
-SEQ_NOTE = "Bounded: all sequences up to the per-table depth written to the evidence file plus all 0/1-deviation lanes; argument values range over fill patterns (zero, all-ones, two distinct-byte patterns), not all 2^64 values. Oracles are written from the specifications (DESIGN.md 9.1 lists what is asserted and what is pinned to the baseline)."
+SEQ_NOTE = "Bounded: all sequences up to the per-table depth written to the evidence file plus all 0/1-deviation lanes; argument values range over the fill patterns and, one or two arguments at a time, over util::value_set (whole domain up to 8 bits, thorough 16; beyond: small integers, top of range, powers of two +-1, every byte lane x 6 (256) values x 3 backgrounds, alignments), not over all 2^32 / 2^64 values: a rule keyed to one arbitrary wide constant outside that set, or to three arguments at once, is outside the verdict. Oracles are written from the specifications (DESIGN.md 9.1 lists what is asserted and what is pinned to the baseline)."
 SEQ_TECH = "stateless exhaustive DFS over all builder-operation sequences to a depth bound + deviation-bounded long lanes, executed on the real crate, every prefix judged"
 
 # property -> (engine, technique, level text, level note, design ref)
